@@ -31,6 +31,8 @@ ACCEPTED GRAMMAR (everything else -> TranslateError naming file, line and constr
              names h_*), the consumer's names bound to the yielded values (`_` binds nothing), the consumer's body.  Sound
              because a generator runs its body up to each yield in loop order and the consumer's body once per yield, and
              neither body can store into anything but fresh locals / the accumulator
+             an index-list helper  def h(strain): return numpy.argwhere(numpy.logical_not(numpy.isclose(strain, 0)))
+             (that single return, nothing else) may stand for the NZ expression:  NZ = h(<strain param>)
   loop fns   ACC = <number> | ACC = []          NZ = numpy.argwhere(numpy.logical_not(numpy.isclose(<param 1>, 0)))
              for (i, j), (k, l) in itertools.product(NZ, NZ):  <loop body>          return ACC
              loop body:  KEY = c_(<4 ints of the loop indices>)  (exactly once; emitted as gen_energy_key / gen_keys_key)
@@ -339,6 +341,26 @@ class LoopFn(Exprs):
     def nz_text(fs):
         return "numpy.argwhere(numpy.logical_not(numpy.isclose(%s, 0)))" % fs
 
+    def is_nz(self, value, fs):
+        """is `value` the index list of the strain `fs`: the argwhere/isclose expression itself, or a call h(fs) of a
+        private undecorated module-level function whose whole body is `return <that expression of its own parameter>`
+        (calling it evaluates exactly that expression on the same array: nothing else can happen in its body)"""
+        if src_of(value) == self.nz_text(fs):
+            return True
+        if isinstance(value, ast.Call) and isinstance(value.func, ast.Name) and value.func.id in self.helpers and \
+                not value.keywords and len(value.args) == 1 and isinstance(value.args[0], ast.Name) and value.args[0].id == fs:
+            h = self.helpers[value.func.id]
+            a = h.args
+            if h.decorator_list or a.vararg or a.kwarg or a.kwonlyargs or a.posonlyargs or a.defaults or a.kw_defaults or \
+                    len(a.args) != 1:
+                bail(h, "an index-list helper must be an undecorated function of the strain only")
+            body = [x for x in h.body if not is_doc(x)]
+            if len(body) != 1 or not isinstance(body[0], ast.Return) or body[0].value is None or \
+                    src_of(body[0].value) != self.nz_text(a.args[0].arg):
+                bail(h, "an index-list helper must be exactly `return %s`" % self.nz_text(a.args[0].arg))
+            return True
+        return False
+
     def product_header(self, loop, nz, taken, prefix):
         """`for (i, j), (k, l) in itertools.product(NZ, NZ):` -> (python index names, Coq names)"""
         if loop.orelse or getattr(loop, "type_comment", None):
@@ -393,7 +415,7 @@ class LoopFn(Exprs):
             bail(h, "a loop helper must contain exactly one `yield`")
         st = [s for s in h.body if not is_doc(s)]
         if len(st) != 2 or not (isinstance(st[0], ast.Assign) and len(st[0].targets) == 1 and
-                                isinstance(st[0].targets[0], ast.Name) and src_of(st[0].value) == self.nz_text(hn[0])) \
+                                isinstance(st[0].targets[0], ast.Name) and self.is_nz(st[0].value, hn[0])) \
                 or not isinstance(st[1], ast.For):
             bail(h, "a loop helper must be exactly: NZ = %s; for (i, j), (k, l) in itertools.product(NZ, NZ): ... yield ..."
                  % self.nz_text(hn[0]))
@@ -476,8 +498,8 @@ class LoopFn(Exprs):
             if nm in names or nm in (acc, nz) or nm in RESERVED:
                 bail(s, "assignment to a parameter / an already bound name before the loop")
             if isinstance(s.value, ast.Call):
-                if src_of(s.value) != self.nz_text(fs) or nz is not None:
-                    bail(s, "the index list must be `%s`, once" % self.nz_text(fs))
+                if nz is not None or not self.is_nz(s.value, fs):
+                    bail(s, "the index list must be `%s` (or a helper that returns exactly that), once" % self.nz_text(fs))
                 nz = nm
             else:
                 if acc is not None:
